@@ -20,6 +20,8 @@ import (
 	log "github.com/sirupsen/logrus"
 
 	windataplane "github.com/projectcalico/calico/felix/dataplane/windows"
+	winipsets "github.com/projectcalico/calico/felix/dataplane/windows/ipsets"
+	felixipsets "github.com/projectcalico/calico/felix/ipsets"
 	"github.com/projectcalico/calico/felix/dataplane/windows/hns"
 	"github.com/projectcalico/calico/felix/dataplane/windows/policysets"
 	"github.com/projectcalico/calico/felix/proto"
@@ -1052,7 +1054,9 @@ func main() {
 	fixedTree := probeCombinePorts()
 	for i := 0; i < *n; i++ {
 		var l line
-		switch k := r.intn(200); {
+		switch k := r.intn(230); {
+		case k >= 200:
+			l = histCase(r)
 		case k < 50:
 			l = tierCase(r, "tier")
 		case k < 80:
@@ -1433,4 +1437,205 @@ func prioCase(r *rng) line {
 	}
 	return line{Coq: coq, NT: n >= 3, Key: coq, Tags: []string{"kind:rewrite-priorities", tag},
 		Sample: map[string]any{"kind": "rewrite-priorities", "limit": limit, "n": n}}
+}
+
+// ---------------------------------------------------------------- histories
+
+// the canonical text of a set member (equal CIDRs <-> equal strings)
+func memberText(c gcidr) string {
+	if c.plen == 32 {
+		return ip4(c.addr)
+	}
+	return fmt.Sprintf("%s/%d", ip4(c.addr), c.plen)
+}
+
+func genMembers(r *rng, n int, pool []gcidr) []gcidr {
+	var out []gcidr
+	for i := 0; i < n; i++ {
+		var c gcidr
+		switch {
+		case len(pool) > 0 && r.chance(50):
+			c = pool[r.intn(len(pool))]
+		case r.chance(75):
+			c = gcidr{addr: uniAddr(r), plen: 32}
+		default:
+			c = genCIDR4(r)
+			c.addr = mask(c.addr, c.plen)
+		}
+		c.text = memberText(c)
+		out = append(out, c)
+	}
+	return out
+}
+
+// A history of AddOrReplacePolicySet / RemovePolicySet and IP-set cache updates.  The real Windows IP-set cache is
+// wired to the real PolicySets as the dataplane does it: every change of an IP set ends in ProcessIpSetUpdate(id)
+// (win_dataplane.go: ipSetsV4.SetCallback(endpointMgr.OnIPSetsUpdate) -> CompleteDeferredWork -> ProcessIpSetUpdate).
+// GetPolicySetRules is observed after every step.
+func histCase(r *rng) line {
+	cache := winipsets.NewIPSets(winipsets.NewIPVersionConfig(winipsets.IPFamilyV4))
+	h := &fakeHNS{}
+	h.f.Acl.AclRuleId = r.chance(50)
+	ps := policysets.NewPolicySets(h, []policysets.IPSetCache{cache}, noStatic{})
+	cache.SetCallback(func(id string) { ps.ProcessIpSetUpdate(id) })
+	inbound := r.chance(50)
+	eot := r.chance(70)
+	npol := 1 + r.intn(3)
+	ids := []string{}
+	var idNums []string
+	for i := 0; i < npol; i++ {
+		ids = append(ids, fmt.Sprintf("policy-%d", i))
+		idNums = append(idNums, strconv.Itoa(i))
+	}
+	exists := map[int]bool{} // IP sets that exist in the cache
+	var pool []gcidr         // addresses worth aiming at
+	var allRules []*grule
+	var ops, obs []string
+	tags := []string{"kind:history"}
+	var sample []string
+	observe := func() {
+		got := ps.GetPolicySetRules(ids, inbound, eot)
+		var prs []prule
+		for _, a := range got {
+			prs = append(prs, parseRule(a))
+		}
+		obs = append(obs, coqRules(prs))
+		sample = append(sample, fmt.Sprintf("%d rules", len(prs)))
+	}
+	genPol := func() ([]*grule, []*grule) {
+		var in, out []*grule
+		for d := 0; d < 2; d++ {
+			n := 1 + r.intn(3)
+			for j := 0; j < n; j++ {
+				g := genRule(r, d == 0, false, false)
+				g.ipportSets = nil
+				if g.action == "log" {
+					g.action, g.actionText = "allow", "allow"
+				}
+				// most rules depend on an IP set, often together with CIDRs
+				if r.chance(75) {
+					sid := 1 + r.intn(3)
+					if r.chance(50) {
+						g.srcSets, g.dstSets = []int{sid}, nil
+					} else {
+						g.dstSets, g.srcSets = []int{sid}, nil
+					}
+				}
+				for _, c := range append(append([]gcidr{}, g.srcNets...), g.dstNets...) {
+					if !c.v6 {
+						pool = append(pool, gcidr{addr: mask(c.addr, c.plen) + 1, plen: 32})
+					}
+				}
+				if d == 0 {
+					in = append(in, g)
+				} else {
+					out = append(out, g)
+				}
+			}
+		}
+		return in, out
+	}
+	addPolicy := func(i int) {
+		in, out := genPol()
+		var pin, pout []*proto.Rule
+		for j, g := range in {
+			pin = append(pin, g.toProto(fmt.Sprintf("i%d", j)))
+		}
+		for j, g := range out {
+			pout = append(pout, g.toProto(fmt.Sprintf("o%d", j)))
+		}
+		ps.AddOrReplacePolicySet(ids[i], &proto.Policy{InboundRules: pin, OutboundRules: pout})
+		ops = append(ops, fmt.Sprintf("(HAddPolicy %d (PS %s %s))", i, coqRuleList(in), coqRuleList(out)))
+		if inbound {
+			allRules = append(allRules, in...)
+		} else {
+			allRules = append(allRules, out...)
+		}
+	}
+	meta := func(sid int) winipsets.IPSetMetadata {
+		return winipsets.IPSetMetadata{SetID: setName(sid), Type: felixipsets.IPSetTypeHashNet, MaxSize: 1000}
+	}
+	texts := func(cs []gcidr) []string {
+		var out []string
+		for _, c := range cs {
+			out = append(out, c.text)
+		}
+		return out
+	}
+	// start: some sets exist (empty or populated), some do not; then the policies arrive
+	for sid := 1; sid <= 3; sid++ {
+		switch r.intn(3) {
+		case 0:
+			cache.AddOrReplaceIPSet(meta(sid), nil)
+			exists[sid] = true
+			ops = append(ops, fmt.Sprintf("(HSetReplace %d [])", sid))
+			observe()
+		case 1:
+			ms := genMembers(r, 1+r.intn(3), nil)
+			cache.AddOrReplaceIPSet(meta(sid), texts(ms))
+			exists[sid] = true
+			pool = append(pool, ms...)
+			ops = append(ops, fmt.Sprintf("(HSetReplace %d %s)", sid, coqCidrs(ms)))
+			observe()
+		}
+	}
+	for i := 0; i < npol; i++ {
+		if r.chance(85) {
+			addPolicy(i)
+			observe()
+		}
+	}
+	nops := 3 + r.intn(5)
+	for k := 0; k < nops; k++ {
+		sid := 1 + r.intn(3)
+		switch c := r.intn(20); {
+		case c < 7 && exists[sid]:
+			ms := genMembers(r, 1+r.intn(3), pool)
+			cache.AddMembers(setName(sid), texts(ms))
+			pool = append(pool, ms...)
+			ops = append(ops, fmt.Sprintf("(HSetAdd %d %s)", sid, coqCidrs(ms)))
+			tags = append(tags, "op:add-members")
+		case c < 10 && exists[sid]:
+			ms := genMembers(r, 1+r.intn(2), pool)
+			cache.RemoveMembers(setName(sid), texts(ms))
+			ops = append(ops, fmt.Sprintf("(HSetDel %d %s)", sid, coqCidrs(ms)))
+			tags = append(tags, "op:remove-members")
+		case c < 14:
+			ms := genMembers(r, r.intn(4), pool)
+			cache.AddOrReplaceIPSet(meta(sid), texts(ms))
+			exists[sid] = true
+			pool = append(pool, ms...)
+			ops = append(ops, fmt.Sprintf("(HSetReplace %d %s)", sid, coqCidrs(ms)))
+			tags = append(tags, "op:replace-set")
+		case c < 15:
+			cache.RemoveIPSet(setName(sid))
+			exists[sid] = false
+			ops = append(ops, fmt.Sprintf("(HSetRemove %d)", sid))
+			tags = append(tags, "op:remove-set")
+		case c < 19:
+			addPolicy(r.intn(npol))
+			tags = append(tags, "op:add-or-replace-policy")
+		default:
+			i := r.intn(npol)
+			ps.RemovePolicySet(ids[i])
+			ops = append(ops, fmt.Sprintf("(HRemovePolicy %d)", i))
+			tags = append(tags, "op:remove-policy")
+		}
+		observe()
+	}
+	w := &world{netSets: map[int][]gcidr{}, ipportSets: map[int][]ipportMember{}}
+	w.netSets[1] = pool
+	if len(w.netSets[1]) > 6 {
+		w.netSets[1] = w.netSets[1][len(w.netSets[1])-6:]
+	}
+	pkts := genPackets(r, w, allRules, 10)
+	for i := 0; i < 4 && len(pool) > 0; i++ {
+		a := pool[r.intn(len(pool))]
+		b := pool[r.intn(len(pool))]
+		pkts = append(pkts, pkt{proto: []int{6, 17}[r.intn(2)], src: a.addr, dst: b.addr, sport: []int{80, 443, 53, 1000}[r.intn(4)], dpt: []int{80, 443, 53, 1000}[r.intn(4)]})
+	}
+	coq := fmt.Sprintf("(HistCase (mkHCase 4000 [%s] %s %s [%s] [%s] %s))%%N", strings.Join(idNums, ";"), coqBool(inbound), coqBool(eot),
+		strings.Join(ops, ";"), strings.Join(obs, ";"), coqPkts(pkts))
+	return line{Coq: coq, NT: len(ops) >= 5, Key: coq, Tags: tags,
+		Sample: map[string]any{"kind": "history", "ops": len(ops), "inbound": inbound, "observations": sample}}
 }
